@@ -228,6 +228,10 @@ class _CommonFile:
 
         # don't bother preserving trailing whitespace, but do preserve trailing comments
         if skipped.rstrip():
+            if not skipped.endswith(b"\n"):
+                # last line of the file had no newline; terminate it,
+                # so that records added later start on a line of their own.
+                skipped += b"\n"
             source.append((_SKIPPED, skipped))
 
         # NOTE: not replacing ._records until parsing succeeds, so loading is atomic.
